@@ -73,6 +73,8 @@ def plan(tier: str, seed: int) -> Plan:
     configs = CONFIGS if thorough else CONFIGS[:16]
     for ci, tokens in enumerate(configs):
         used = [t for t in TEMPLATES if any("{" + k + "}" in t[0] for k in tokens)]
+        # templates that use more of the renamed identifiers (and nest them in filters) come first
+        used.sort(key=lambda t: (-sum(1 for k in tokens if "{" + k + "}" in t[0]), -t[0].count("?")))
         rest = [t for t in TEMPLATES if t not in used]
         chosen = used if thorough else used[:4]
         chosen = chosen + (rest if thorough else rest[:1])
